@@ -162,6 +162,12 @@ func (a *FuncAction) Exec(ctx context.Context, bs Bindings, props StepProps) (*E
 
 	exe, err := a.F(ctx, bs, props)
 
+	if exe == nil || exe.Bs == nil {
+		// Nothing to restore into: the action failed without an
+		// Execution or (for a guard) returned no bindings.
+		permanent = nil
+	}
+
 	if Exp_PermanentBindings {
 		for p, v := range permanent {
 			exe.Bs[p] = v
